@@ -27,6 +27,9 @@ CHECKS = {
  "C01": ("exploration", "differential oracle at the API boundary: position-dependent payloads compared byte for byte per connection, sentinel-closed bursts, raw-header reference table",
    "Every transport x pattern x cooked/raw configuration is connected 1:1 over the real transports and driven with bursts of messages whose sizes sweep every pool class boundary +-9, 0..600 (0..2100 thorough), the 1 MiB default limit and explicit MaxRecvSize limits L (totals L-1 and L must be delivered); each received body must equal the next accepted send of that direction exactly (classified as truncated/padded/merged/shifted/other-message/poison on mismatch), a sentinel proves nothing extra is queued, raw receivers also check the header. Exploration: sizes and byte values are swept densely but not all 2^20 lengths x contents.",
    "Trusted: the harness payload generator and comparison; only lossless configurations are used (bursts <= 16, blocking sends).", "3/C01"),
+ "C14": ("fault_enumeration", "trace monitor over the virtual transport's dial log (sound lower bounds per attempt, canary-calibrated upper bounds, stuck detector for progress, attempt count after Close)",
+   "Fault scripts enumerate ReconnectTime x MaxReconnectTime x Close phase cells and place PRNG sequences of refused / established-then-dropped / hook-rejected / dropped-at-once connections at successive dial attempts on a dialer whose transport is the harness; the dial log (start/return of every transport Dial on one monotonic clock) is checked: each attempt at least ReconnectTime after the event that armed it (no epsilon), attempts keep coming while the dialer is open, traffic is exchanged on every new connection, delay capped / not growing / reset after a successful attach (upper bounds judged against a scheduler canary with parameters that make a bug several times off), a synchronous dialer does not retry before its first success, at most one attempt after Close. Fault enumeration: the fault kinds and phases are enumerated, their sequences sampled.",
+   "Trusted: vt dial log timestamps; upper-bound verdicts depend on the canary rule (otherwise inconclusive). 'For as long as it is open' is restated as: the next attempt appears or the process is provably quiescent.", "3/C14"),
 }
 
 NOT_YET = {}
